@@ -180,6 +180,12 @@ impl SimReader {
   pub fn src_ts(w: u8, sn: i64) -> u64 {
     (500_000u64 << 32) + u64::from(w) * 1000 + sn as u64
   }
+  /// The source timestamp the datagrams of (w, sn) carry: every third sequence number travels in a message
+  /// WITHOUT an INFO_TS submessage (RTPS allows that; other implementations do it), so that its sample must be
+  /// handed over with no source timestamp at all - whatever an earlier message announced.
+  pub fn src_ts_opt(w: u8, sn: i64) -> Option<u64> {
+    if sn % 3 == 2 { None } else { Some(Self::src_ts(w, sn)) }
+  }
   pub fn value_of(w: u8, sn: i64) -> u32 {
     u32::from(w) * 1000 + sn as u32
   }
@@ -188,17 +194,17 @@ impl SimReader {
   }
   pub fn data_bytes(&self, w: u8, sn: i64, k: u8, pad: usize, explicit_reader: bool) -> Vec<u8> {
     let rid = if explicit_reader { self.reader_eid } else { EntityId::UNKNOWN };
-    wire::data_msg(&self.cc(w, sn, k, pad), rid, Some(Self::src_ts(w, sn)))
+    wire::data_msg(&self.cc(w, sn, k, pad), rid, Self::src_ts_opt(w, sn))
   }
   pub fn dispose_bytes(&self, w: u8, sn: i64, k: u8) -> Vec<u8> {
     let key = crate::serialization::to_vec::<u8, byteorder::LittleEndian>(&k).unwrap();
-    wire::data_msg(&wire::cc_dispose_key(wguid(w), sn, key), self.reader_eid, Some(Self::src_ts(w, sn)))
+    wire::data_msg(&wire::cc_dispose_key(wguid(w), sn, key), self.reader_eid, Self::src_ts_opt(w, sn))
   }
   pub fn nfrags(&self, w: u8, sn: i64, k: u8, pad: usize) -> u32 {
     wire::num_frags(&self.cc(w, sn, k, pad), self.cfg.frag_size)
   }
   pub fn frag_bytes(&self, w: u8, sn: i64, k: u8, pad: usize, f: u32) -> Vec<u8> {
-    wire::datafrag_msg(&self.cc(w, sn, k, pad), self.reader_eid, f, self.cfg.frag_size, Some(Self::src_ts(w, sn)))
+    wire::datafrag_msg(&self.cc(w, sn, k, pad), self.reader_eid, f, self.cfg.frag_size, Self::src_ts_opt(w, sn))
   }
   /// A GAP as another implementation may send it: gapList given as raw (numBits, bitmap words), the unused
   /// low bits of the last word not necessarily zero.  Little-endian, INFO_DST-less, addressed to this reader.
@@ -228,11 +234,11 @@ impl SimReader {
   }
   /// a DATA the reader cannot turn into an ordinary sample (see `wire::odd_data_msg`)
   pub fn odd_bytes(&self, w: u8, sn: i64, variant: u8) -> Vec<u8> {
-    wire::odd_data_msg(wguid(w), sn, self.reader_eid, variant, Some(Self::src_ts(w, sn)))
+    wire::odd_data_msg(wguid(w), sn, self.reader_eid, variant, Self::src_ts_opt(w, sn))
   }
   /// one DATAFRAG carrying fragments `first .. first+n`
   pub fn frag_run_bytes(&self, w: u8, sn: i64, k: u8, pad: usize, first: u32, n: u32) -> Vec<u8> {
-    wire::datafrag_run_msg(&self.cc(w, sn, k, pad), self.reader_eid, first, n, self.cfg.frag_size, Some(Self::src_ts(w, sn)))
+    wire::datafrag_run_msg(&self.cc(w, sn, k, pad), self.reader_eid, first, n, self.cfg.frag_size, Self::src_ts_opt(w, sn))
   }
   pub fn hb_bytes(&self, w: u8, first: i64, last: i64, count: i32, fin: bool) -> Vec<u8> {
     wire::heartbeat_msg(wguid(w), self.reader_eid, first, last, count, fin)
